@@ -370,6 +370,23 @@ def estimator_lane(ctx, thorough):
                                strat, lname, 'returned' if oc == 0 else 'raises ' + type(ex).__name__),
                            dict(estimator=name, strategy=strat, labels=lname, y=[str(v) for v in yy[:6]]),
                            observed=None if ex is None else str(ex)[:150])
+      # score validates its labels too (roc_auc_score alone accepts any two-valued vector)
+      for lname, yy in (('labels_0_1', np.where(y == 1, 1, 0)), ('labels_1_2', np.where(y == 1, 2, 1)), ('labels_-2_2', 2 * y),
+                        ('labels_float_1.5', np.where(y == 1, 1.5, -1.0)),
+                        ('labels_nan', np.where(np.arange(len(y)) == 1, np.nan, y.astype(float))),
+                        ('labels_str', np.array(['a', 'b'])[(y == 1).astype(int)]),
+                        ('labels_short', y[:-1]), ('labels_long', np.r_[y, 1]), ('well_formed', y), ('well_formed_list', y.tolist())):
+        oc, r, ex = outcome(lambda: est.score(P, yy))
+        ctx.count('estimator_methods', 1)
+        ctx.seen((name, 'score', lname), True)
+        if lname.startswith('well_formed'):
+          if oc != 0:
+            ctx.fail_input('outcome_class', 'score rejects well-formed labels', dict(estimator=name, labels=lname),
+                           observed=None if ex is None else str(ex)[:150])
+        elif oc != 1:
+          ctx.fail_input('outcome_class', 'score with %s: %s' % (lname, 'returned' if oc == 0 else 'raises ' + type(ex).__name__),
+                         dict(estimator=name, method='score', labels=lname, y=[str(v) for v in yy[:6]]),
+                         observed=None if ex is None else str(ex)[:150])
     if fits.KIND[name] in ('class', 'reg', 'chunks'):
       X, y = fits.fit_args(name, data)
       for lname, yy in (('labels_short', y[:-1]), ('labels_long', np.r_[y, y[:1]])):
@@ -381,13 +398,13 @@ def estimator_lane(ctx, thorough):
     # n_components outside [1, n_features]
     import inspect, metric_learn
     if 'n_components' in inspect.signature(getattr(metric_learn, name).__init__).parameters:
-      for nc in (0, -1, d + 1):
+      for nc in (0, -1, d + 1, 0.5, 0.999, d + 0.5, np.float64(0.25)):
         kw2 = dict(kw)
         kw2['n_components'] = nc
         oc, r, ex = outcome(lambda: fits.fit(name, kw2, data))
         ctx.count('estimator_methods', 1)
         if oc != 1:
-          ctx.fail_input('outcome_class', 'n_components=%s: %s' % ('0' if nc == 0 else '-1' if nc < 0 else 'd+1',
+          ctx.fail_input('outcome_class', 'n_components=%s: %s' % (nc if nc <= 1 else 'd+%s' % (nc - d),
                                                                  'returned' if oc == 0 else 'raises ' + type(ex).__name__),
                          dict(estimator=name, n_components=nc, d=d), observed=None if ex is None else str(ex)[:150])
 
